@@ -32,6 +32,36 @@ R9 = Fraction(1, 10**9)
 SYMBOL_RE = re.compile(r"^[1a-zA-ZÅₐ-ₜΑ-ω☉.°\-()]+$")
 
 
+def classify_unit_str(m, u, parsed_to=None):
+    """mechanism key for a str() that does not parse back to the unit"""
+    from measured import formatting
+
+    Unit = m.Unit
+    try:
+        magnitude, terms = formatting._unit_to_magnitude_and_terms(u)
+    except Exception:
+        return "C13:str-raised"
+    if u.symbol:
+        terms, magnitude = [], 1
+    if magnitude != 1:
+        return "C13:leading-magnitude-in-unit-str"
+    for prefix, symbol, exponent in terms:
+        if prefix.base != 0 and not prefix.symbol:
+            return "C13:numeric-prefix-rendering"
+    for prefix, symbol, exponent in terms:
+        if prefix.base != 0 and prefix.symbol and symbol:
+            glued = f"{prefix.symbol}{symbol}"
+            if glued in Unit._by_symbol:
+                return f"C13:prefixed-symbol-collides:{glued}"
+            # an earlier, shorter split of the glued string resolves to something else
+            for i in range(1, len(glued)):
+                if i != len(prefix.symbol) and glued[:i] in m.Prefix._by_symbol and glued[i:] in Unit._by_symbol:
+                    if i < len(prefix.symbol):
+                        return f"C13:prefixed-symbol-ambiguous-split:{glued}"
+    return "C13:parses-to-a-different-unit" if parsed_to is not None else "C13:str-does-not-parse"
+
+
+
 def run(ctx):
     config, part, parts = CONFIGS[ctx.tier][ctx.shard] if ctx.nshards > 1 else ("all", 0, 1)
     env = kit.Env(ctx, modules=config)
@@ -61,29 +91,7 @@ def run(ctx):
         return f"size ratio {float(r[0]):.12g}"
 
     def classify_failure(u, s, parsed_to=None):
-        """mechanism key for a str() that does not parse back to the unit"""
-        try:
-            magnitude, terms = formatting._unit_to_magnitude_and_terms(u)
-        except Exception:
-            return "C13:str-raised"
-        if u.symbol:
-            terms, magnitude = [], 1
-        if magnitude != 1:
-            return "C13:leading-magnitude-in-unit-str"
-        for prefix, symbol, exponent in terms:
-            if prefix.base != 0 and not prefix.symbol:
-                return "C13:numeric-prefix-rendering"
-        for prefix, symbol, exponent in terms:
-            if prefix.base != 0 and prefix.symbol and symbol:
-                glued = f"{prefix.symbol}{symbol}"
-                if glued in Unit._by_symbol:
-                    return f"C13:prefixed-symbol-collides:{glued}"
-                # an earlier, shorter split of the glued string resolves to something else
-                for i in range(1, len(glued)):
-                    if i != len(prefix.symbol) and glued[:i] in m.Prefix._by_symbol and glued[i:] in Unit._by_symbol:
-                        if i < len(prefix.symbol):
-                            return f"C13:prefixed-symbol-ambiguous-split:{glued}"
-        return "C13:parses-to-a-different-unit" if parsed_to is not None else "C13:str-does-not-parse"
+        return classify_unit_str(m, u, parsed_to)
 
     def roundtrip_unit(u, desc, nontrivial=True):
         ctx.count("evaluations")
